@@ -120,6 +120,9 @@ class StateInvariantsRemover(engines.engine.Engine, CompilerMixin):
         new_kind = problem_kind.clone()
         if new_kind.has_state_invariants():
             new_kind.unset_constraints_kind("STATE_INVARIANTS")
+            if new_kind.has_timed_effects():
+                # the invariant is re-checked after every timed effect by a timed goal
+                new_kind.set_time("TIMED_GOALS")
         return new_kind
 
     def _compile(
